@@ -394,7 +394,11 @@ func main() {
 		Mode: packages.NeedName | packages.NeedFiles | packages.NeedSyntax | packages.NeedTypes | packages.NeedTypesInfo | packages.NeedCompiledGoFiles,
 		Dir:  repo,
 	}
-	if po := os.Getenv("VERIF_PATCH_OVERLAY"); po != "" {
+	cfg.BuildFlags = []string{"-tags=verif"}
+	for _, po := range []string{os.Getenv("VERIF_RW_OVERLAY"), os.Getenv("VERIF_PATCH_OVERLAY")} {
+		if po == "" {
+			continue
+		}
 		b, err := os.ReadFile(po)
 		if err != nil {
 			fatal("read patch overlay: %v", err)
@@ -403,7 +407,9 @@ func main() {
 		if err := json.Unmarshal(b, &ov); err != nil {
 			fatal("parse patch overlay: %v", err)
 		}
-		cfg.Overlay = map[string][]byte{}
+		if cfg.Overlay == nil {
+			cfg.Overlay = map[string][]byte{}
+		}
 		for k, v := range ov.Replace {
 			data, err := os.ReadFile(v)
 			if err != nil {
